@@ -30,7 +30,7 @@ DESC_TIMEOUT = 900
 
 
 def cases(tier, seed):
-    n = 8 if tier == 'quick' else 80
+    n = 24 if tier == 'quick' else 80
     parts = ['i2c', 'ow', 'lh', 'yaml', 'traj', 'deck', 'loco']
     out = [{'seed': seed * 100003 + i, 'part': p, 'n': 60} for i in range(n) for p in parts]
     out.append({'seed': 0, 'part': 'ow_lengths', 'n': 0})
